@@ -71,6 +71,8 @@ type World struct {
 	// MetaSeed (non-zero): the input files get drawn modification times (some newer than -o, some in the
 	// future), drawn permission bits and are created in a drawn order: same contents, other metadata
 	MetaSeed uint64 `json:"meta_seed,omitempty"`
+	// SlowSeed (non-zero): a drawn quarter of the file operations takes 0.5-5 s of simulated time
+	SlowSeed uint64 `json:"slow_seed,omitempty"`
 
 	Cfg   *gen.Cfg `json:"cfg,omitempty"`   // the model the files were rendered from (when there is one)
 	Class string   `json:"class,omitempty"` // generator's note: valid / defect class / layout class
@@ -359,6 +361,22 @@ func Exec1(t Target) {
 	os.Stdout.Write(b)
 }
 
+// zoneFor is the simulated machine's zone database: what time.Local is in a process started with
+// this $TZ (unset or unknown names: UTC, as on a machine whose /etc/localtime is UTC).
+func zoneFor(tz string) *time.Location {
+	switch tz {
+	case "Asia/Tokyo":
+		return time.FixedZone("JST", 9*3600)
+	case "America/New_York":
+		return time.FixedZone("EST", -5*3600)
+	case "Europe/Berlin":
+		return time.FixedZone("CET", 3600)
+	case "Australia/Lord_Howe":
+		return time.FixedZone("+1030", 10*3600+1800)
+	}
+	return time.UTC
+}
+
 // Exec runs the build command once in world w.
 func Exec(t Target, w *World) *Result {
 	if Isolate {
@@ -509,13 +527,17 @@ func Exec(t Target, w *World) *Result {
 	oldArgs := os.Args
 	os.Args = args
 	setEnv(baseEnv(w, home, tmp))
+	// a process reads its time zone once, at start, from $TZ: the in-process runs get it per run
+	oldLocal := time.Local
+	time.Local = zoneFor(os.Getenv("TZ"))
+	defer func() { time.Local = oldLocal }()
 	if t.SetBuild != nil {
 		t.SetBuild(w.Version, w.Commit, w.Date, w.Dirty)
 	}
 	ctl := &simrt.Ctl{
 		MapSeed: w.MapSeed, ListSeed: w.ListSeed, Clock: time.Unix(w.Clock, 0).UTC(), RandSeed: w.RandSeed,
 		Pid: w.Pid, Host: w.Host, Faults: append([]simrt.Fault{}, w.Faults...),
-		AltSeed: w.AltSeed, AltAll: w.AltAll, Root: top, Root2: inRoot, StdoutFailFrom: w.StdoutFailFrom,
+		AltSeed: w.AltSeed, AltAll: w.AltAll, SlowSeed: w.SlowSeed, Root: top, Root2: inRoot, StdoutFailFrom: w.StdoutFailFrom,
 	}
 	if len(w.AltSites) > 0 {
 		ctl.AltSites = map[string]bool{}
